@@ -63,6 +63,34 @@ Theorem C10_consistent_huber_kernel : forall (phi phi' : xv -> xv) (p p' : Q -> 
 Proof. exact ch_gen_spec. Qed.
 Print Assumptions C10_consistent_huber_kernel.
 
+(* ---- the five wrappers at one point, finite end points: value computed by the regenerated kernels = q_tw_* (model/C10.v):
+        q_tw_quantile = S_quantile(g), q_tw_abs = 2 S_quantile(g, 1/2), q_tw_sq = S_expectile(phi, phi', 1/2),
+        q_tw_expectile = S_expectile / 2, q_tw_huber = S_huber / 2 ---- *)
+Theorem C10_tw_rect_kernels : forall a b alpha v f o : Q, a <= b -> 0 <= v ->
+  gen_consistent_expectile (gen_phi_rect (XFin a) (XFin b)) (gen_phi_prime_rect (XFin a) (XFin b)) (XFin f) (XFin o) (XFin (1 # 2))
+    =x= XFin (q_tw_sq_rect a b f o) /\
+  xmul (XFin 2) (gen_consistent_quantile (gen_g_rect (XFin a) (XFin b)) (XFin f) (XFin o) (XFin (1 # 2))) =x= XFin (q_tw_abs_rect a b f o) /\
+  gen_consistent_quantile (gen_g_rect (XFin a) (XFin b)) (XFin f) (XFin o) (XFin alpha) =x= XFin (q_tw_quantile_rect a b alpha f o) /\
+  xmul (XFin (1 # 2)) (gen_consistent_expectile (gen_phi_rect (XFin a) (XFin b)) (gen_phi_prime_rect (XFin a) (XFin b)) (XFin f) (XFin o) (XFin alpha))
+    =x= XFin (q_tw_expectile_rect a b alpha f o) /\
+  xmul (XFin (1 # 2)) (gen_consistent_huber (gen_phi_rect (XFin a) (XFin b)) (gen_phi_prime_rect (XFin a) (XFin b)) (XFin f) (XFin o) (XFin v))
+    =x= XFin (q_tw_huber_rect a b v f o).
+Proof. exact tw_rect_gen. Qed.
+Print Assumptions C10_tw_rect_kernels.
+
+Theorem C10_tw_trap_kernels : forall a b c d alpha v f o : Q, a < b -> b < c -> c < d -> 0 <= v ->
+  let A := XFin a in let B := XFin b in let C := XFin c in let D := XFin d in
+  gen_consistent_expectile (gen_phi_trap A B C D) (gen_phi_prime_trap A B C D) (XFin f) (XFin o) (XFin (1 # 2))
+    =x= XFin (q_tw_sq_trap a b c d f o) /\
+  xmul (XFin 2) (gen_consistent_quantile (gen_g_trap A B C D) (XFin f) (XFin o) (XFin (1 # 2))) =x= XFin (q_tw_abs_trap a b c d f o) /\
+  gen_consistent_quantile (gen_g_trap A B C D) (XFin f) (XFin o) (XFin alpha) =x= XFin (q_tw_quantile_trap a b c d alpha f o) /\
+  xmul (XFin (1 # 2)) (gen_consistent_expectile (gen_phi_trap A B C D) (gen_phi_prime_trap A B C D) (XFin f) (XFin o) (XFin alpha))
+    =x= XFin (q_tw_expectile_trap a b c d alpha f o) /\
+  xmul (XFin (1 # 2)) (gen_consistent_huber (gen_phi_trap A B C D) (gen_phi_prime_trap A B C D) (XFin f) (XFin o) (XFin v))
+    =x= XFin (q_tw_huber_trap a b c d v f o).
+Proof. exact tw_trap_gen. Qed.
+Print Assumptions C10_tw_trap_kernels.
+
 (* ---- non-negativity and zero at fcst = obs ---- *)
 Theorem C10_consistent_quantile_nonneg : forall (g : Q -> Q) (alpha f o : Q),
   (forall x y, x <= y -> g x <= g y) -> 0 < alpha < 1 ->
